@@ -86,7 +86,7 @@ def cases(draw, tier="quick"):
     return cfg
 
 
-FUZZ = {"thorough": {"runs": 3000, "children": 4, "wall": 1500}}
+FUZZ = {"thorough": {"runs": 3000, "children": 4, "wall": 900}}
 
 
 def fuzz_cases():
